@@ -2,9 +2,10 @@
 import random
 
 from harness import chanrt, changen, core
+from harness.concdrv import ConcMixin
 
 
-class ChanDriver(object):
+class ChanDriver(ConcMixin):
     PID = None
     PROP = None                 # Coq predicate : scenario -> list opobs -> bool
     PROFILES = []               # (profile name, quick count, thorough count)
@@ -33,8 +34,11 @@ class ChanDriver(object):
                  for c, op, sc in steps]
         results = []
         try:
-            obs = chanrt.run_scenario(nchan, steps, results)
-        except Exception as why:     # the runner itself failed: a broken tie
+            with core.case_alarm(30):
+                obs = chanrt.run_scenario(nchan, steps, results)
+        except core.Broken:
+            raise
+        except (Exception, core.CaseTimeout) as why:     # the runner itself failed: a broken tie
             obs = '[]'
             return dict(cin=chanrt.scenario_coq(nchan, steps), cobs=obs,
                         meta=dict(nchan=nchan, steps=_plain(steps),
@@ -52,14 +56,22 @@ class ChanDriver(object):
     def cases(self, tier, seed):
         rnd = random.Random(seed)
         out = []
-        for prof, nq, nt in self.PROFILES:
-            for _ in range(nq if tier == 'quick' else nt):
-                nchan, steps = changen.PROFILES[prof](rnd, tier)
-                out.append(self.make_case(nchan, steps, prof))
+        try:
+            for prof, nq, nt in self.PROFILES:
+                for _ in range(nq if tier == 'quick' else nt):
+                    nchan, steps = changen.PROFILES[prof](rnd, tier)
+                    out.append(self.make_case(nchan, steps, prof))
+            out += self.conc_cases(tier, seed)
+        except core.Broken:
+            # repeated wall-clock time-outs: keep what was run (the timed-out
+            # cases are reported as disagreements, with their scenarios)
+            pass
         return out
 
     def replay_cases(self, doc):
         m = doc['case']
+        if m.get('conc'):
+            return self.conc_replay(m)
         return [self.make_case(m['nchan'], _unplain(m['steps']), m.get('profile'))]
 
     def search_cases(self, tier, seed, focus):
@@ -69,14 +81,16 @@ class ChanDriver(object):
         """Greedy: drop one step at a time while the predicate stays false."""
         from harness.run import evaluate
         cur = case
+        if case['meta'].get('conc') or case['meta'].get('harness_error'):
+            return case
         for _ in range(4):
             steps = _unplain(cur['meta']['steps'])
             if len(steps) <= 1:
                 break
-            cands = [self.make_case(cur['meta']['nchan'], steps[:j] + steps[j + 1:],
-                                    cur['meta'].get('profile'))
-                     for j in range(len(steps))]
             try:
+                cands = [self.make_case(cur['meta']['nchan'], steps[:j] + steps[j + 1:],
+                                        cur['meta'].get('profile'))
+                         for j in range(len(steps))]
                 res, dis, vio = evaluate(self, cands, tag='shrink')
             except Exception:
                 break
@@ -93,6 +107,14 @@ class ChanDriver(object):
         st = {'profiles': {}, 'ops': {}, 'steps': 0, 'harness_errors': 0}
         for c in cases:
             m = c['meta']
+            if m.get('conc'):
+                cs = st.setdefault('concurrent', {'runs': 0, 'threads': 0, 'schedule_steps': 0,
+                                                  'hangs': 0, 'line_p': {}})
+                cs['runs'] += 1
+                cs['threads'] += len(m['scenario']['threads'])
+                cs['schedule_steps'] += len(m.get('decisions') or [])
+                cs['hangs'] += 1 if m.get('hang') else 0
+                cs['line_p'][str(m['line_p'])] = cs['line_p'].get(str(m['line_p']), 0) + 1
             st['profiles'][m['profile']] = st['profiles'].get(m['profile'], 0) + 1
             st['steps'] += len(m['steps'])
             st['harness_errors'] += 1 if m.get('harness_error') else 0
